@@ -285,3 +285,82 @@ def gen_config(rng, kind):
 
 ALL_KINDS = ["mie_sphere", "mie_layered", "mie_spheres", "multisphere", "tmatrix_spheroid", "tmatrix_cylinder", "tmatrix_sphere",
              "mielens", "aberrated", "lens_mie", "mielens_spheres"]
+
+
+# ------------------------------------------------------------------ metamorphic transforms of a config (parent or child)
+
+def _scale_scat(s, L):
+    s = dict(s)
+    t = s["t"]
+    if "c" in s:
+        s["c"] = [v * L for v in s["c"]]
+    if t == "sphere":
+        s["r"] = s["r"] * L
+    elif t in ("layered",):
+        s["r"] = [v * L for v in s["r"]]
+    elif t == "layered_t":
+        s["th"] = [v * L for v in s["th"]]
+    elif t in ("spheres", "scatterers"):
+        s["members"] = [_scale_scat(m, L) for m in s["members"]]
+    elif t == "spheroid":
+        s["r"] = [v * L for v in s["r"]]
+    elif t == "cylinder":
+        s["h"] = s["h"] * L
+        s["d"] = s["d"] * L
+    return s
+
+
+def scale_config(cfg, L):
+    """multiply every length of a configuration by L"""
+    out = dict(cfg)
+    o = dict(cfg["optics"])
+    o["illum_wavelen"] = o["illum_wavelen"] * L
+    out["optics"] = o
+    out["scat"] = _scale_scat(cfg["scat"], L)
+    d = dict(cfg["det"])
+    if d["t"] == "grid":
+        sp = d["spacing"]
+        d["spacing"] = [v * L for v in sp] if isinstance(sp, (list, tuple)) else sp * L
+        if d.get("origin"):
+            d["origin"] = [v * L for v in d["origin"]]
+    elif d["t"] == "points":
+        d["x"] = [v * L for v in d["x"]]
+        d["y"] = [v * L for v in d["y"]]
+        d["z"] = [v * L for v in d["z"]] if isinstance(d.get("z"), list) else (d.get("z") or 0.0) * L
+    elif d["t"] == "sph":
+        if isinstance(d.get("r"), list):
+            d["r"] = [v * L for v in d["r"]]
+        elif d.get("r") is not None:
+            d["r"] = d["r"] * L
+    out["det"] = d
+    return out
+
+
+def _map_index(s, f):
+    s = dict(s)
+    if "n" in s:
+        n = s["n"]
+        if s["t"] in ("layered", "layered_t"):
+            s["n"] = [f(v) for v in n]
+        else:
+            s["n"] = f(n)
+    if "members" in s:
+        s["members"] = [_map_index(m, f) for m in s["members"]]
+    return s
+
+
+def reindex_config(cfg):
+    """(n, n_m, lambda) -> (n/n_m, 1, lambda/n_m)"""
+    nm = cfg["optics"]["medium_index"]
+
+    def f(v):
+        if isinstance(v, (list, tuple)):
+            return [v[0] / nm, v[1] / nm]
+        return v / nm
+    out = dict(cfg)
+    o = dict(cfg["optics"])
+    o["medium_index"] = 1.0
+    o["illum_wavelen"] = o["illum_wavelen"] / nm
+    out["optics"] = o
+    out["scat"] = _map_index(cfg["scat"], f)
+    return out
